@@ -150,7 +150,16 @@ def handleSolver (j : Json) : R Json := do
   let nAa : A2 := tA.map (fun r => r.map (fun v => -|v|))
   let aB := absA2 tB; let aC := absA2 tC; let aD := absA2 tD; let aE := absA2 tE
   let coa : Coefs Rat := { A := get2 nAa, B := get2 aB, C := get2 aC, D := get2 aD, E := get2 aE }
-  let Pab := absA3 Pa; let dPab := absA3 dPa
+  -- scale of a derivative value: B_j' = d (N_j/(t_{j+d}-t_j) - N_{j+1}/(t_{j+d+1}-t_{j+1})) with the degree d-1 functions N: the
+  -- floating-point value carries the rounding of BOTH terms, also where they cancel (a basis function at its maximum): the
+  -- tolerance scale is d (|N_j|/(..) + |N_{j+1}|/(..)) >= |B_j'|, not |B_j'| itself
+  let lowVal : ℕ → ℕ → ℕ → Rat := fun jj c q =>
+    if d ≤ 1 then 1 else |(unitSplineVal t nk (d - 1) jj (X c q) false).getD 1|
+  let invLen : ℕ → ℕ → Rat := fun a b => if t b - t a = 0 then 0 else 1 / (t b - t a)
+  let condD : ℕ → ℕ → ℕ → Rat := fun jj c q =>
+    (d : Rat) * (lowVal jj c q * invLen jj (jj + d) + lowVal (jj + 1) c q * invLen (jj + 1) (jj + d + 1))
+  let Pab := absA3 Pa
+  let dPab : A3 := mk3 nb ncells nq (fun jj c q => max |get3 dPa jj c q| (condD jj c q))
   let msa := assembleArrays d nb Qa coa (get3 Pab) (get3 dPab)
   let asa := msa.toAssembled
   let cnull := funcIsNull co.C ncells nq
